@@ -634,7 +634,25 @@ Definition low_world (w : world) : world :=
 (* tools whose output does not depend on secret values (the hypothesis under which noninterference holds) *)
 Definition tools_blind (ws : wscript) : Prop := forall w c, ws_tools ws w c = ws_tools ws (low_world w) c.
 
-(* the shell tool asked for `printenv RIP_OPENRESPONSES_API_KEY`: what the real bash tool answers *)
+(* What rip HANDS to a tool subprocess (rip-tools secret_env.rs, shell.rs run_command, ripd tasks/pipes.rs, pty.rs): the
+   authority's environment without the credential variables - the three variables the authority reads keys from and
+   every `{ "env": NAME }` key source of the loaded (typed) configuration, registered by load_effective_config. *)
+Definition envref_names (ps : list (str * patch)) : list str :=
+  flat_map (fun kp => match pa_key (snd kp) with Some (KEnvRef n) => [n] | _ => [] end) ps.
+Definition secret_env_names (w : world) : list str :=
+  [E_API_KEY; E_OPENAI; E_OPENROUTER] ++ envref_names (c_providers (load_config w)).
+Definition is_secret_env (w : world) (k : str) : bool := existsb (str_eqb k) (secret_env_names w).
+Definition tool_env (w : world) : env := filter (fun kv => negb (is_secret_env w (fst kv))) (w_env w).
+(* the shell tool asked for `printenv RIP_OPENRESPONSES_API_KEY`: what the real bash tool answers now *)
+Definition printenv_tool_fixed (e : env) (c : tcall) : list str * str :=
+  match getenv e E_API_KEY with
+  | Some v => ([v], v)
+  | None => ([], [])
+  end.
+
+(* UNFIXED behaviour (before the fix; KNOWN_FINDINGS C19/B1): the subprocess inherited the whole environment.  Still the
+   behaviour of a tool that fetches the secret ITSELF with the user's OS permissions (/proc/<authority pid>/environ, a
+   configuration file with an inline key): such tools are functions of the whole world. *)
 Definition printenv_tool (w : world) (c : tcall) : list str * str :=
   match getenv (w_env w) E_API_KEY with
   | Some v => ([v], v)
